@@ -9,6 +9,7 @@ import (
 	"fmt"
 	"net"
 	"sort"
+	"strings"
 	"sync"
 	"time"
 
@@ -76,8 +77,158 @@ func (w *World) Check(e Edge, obs []Obs) []Mismatch {
 	name, _ := e.A["a"].(string)
 	ms := CompareOut(e.O, obs, pr, w, e.A)
 	ts, _ := e.TS.([]any)
+	ms = append(ms, CompareState(ts, pr, actorOf(e.A), name == "Advance")...)
+	if w.Meta.Extra["ledger"] == "yes" {
+		ms = append(ms, w.checkLedger(e, ts)...)
+	}
 
-	return append(ms, CompareState(ts, pr, actorOf(e.A), name == "Advance")...)
+	return ms
+}
+
+func evKey(kind, key string) string {
+	f := strings.Split(key, "|")
+	switch kind {
+	case "alloc+", "alloc-":
+		return kind + " " + f[0]
+	case "perm+", "perm-":
+		return kind + " " + f[0] + "," + f[1]
+	default: // chan: client | peer | number
+		return kind + " " + f[0] + "," + f[len(f)-1]
+	}
+}
+
+// checkLedger compares the lifecycle callbacks made during the step with the spec's EvDiff and
+// the relay sockets the generator handed out with the live allocations of the target state.
+func (w *World) checkLedger(e Edge, ts []any) []Mismatch {
+	var ms []Mismatch
+	w.evMu.Lock()
+	evs := append([]Event{}, w.Events[w.evSeen:]...)
+	w.evSeen = len(w.Events)
+	w.evMu.Unlock()
+	got := map[string]int{}
+	for _, ev := range evs {
+		got[evKey(ev.Kind, ev.Key)]++
+	}
+	want := map[string]int{}
+	for _, x := range e.Ev {
+		m, _ := x.(map[string]any)
+		ks, _ := m["key"].([]any)
+		parts := make([]string, len(ks))
+		for i, k := range ks {
+			parts[i] = fmt.Sprint(toInt2(k))
+		}
+		want[fmt.Sprint(m["kind"])+" "+strings.Join(parts, ",")]++
+	}
+	keys := map[string]bool{}
+	for k := range got {
+		keys[k] = true
+	}
+	for k := range want {
+		keys[k] = true
+	}
+	sorted := make([]string, 0, len(keys))
+	for k := range keys {
+		sorted = append(sorted, k)
+	}
+	sort.Strings(sorted)
+	for _, k := range sorted {
+		if got[k] != want[k] {
+			ms = append(ms, Mismatch{"events", fmt.Sprintf("lifecycle event %q: the spec has %d in this step, the server made %d callbacks", k, want[k], got[k])})
+		}
+	}
+	// relay sockets: open ones = live allocations; nothing closed twice
+	alloc, _ := ts[0].(map[string]any)
+	live := 0
+	for _, v := range alloc {
+		if r, _ := v.(map[string]any); r["live"] == true {
+			live++
+		}
+	}
+	open := 0
+	w.gen.mu.Lock()
+	for k, c := range w.gen.Conns {
+		select {
+		case <-c.closed:
+		default:
+			open++
+		}
+		w.Net.mu.Lock()
+		n := w.Net.Closed[k]
+		w.Net.mu.Unlock()
+		if n > 1 {
+			ms = append(ms, Mismatch{"resources", fmt.Sprintf("relay socket %s was closed %d times", k, n)})
+		}
+	}
+	w.gen.mu.Unlock()
+	if open != live {
+		ms = append(ms, Mismatch{"resources", fmt.Sprintf("%d relay sockets are open, %d allocations are live", open, live)})
+	}
+
+	return ms
+}
+
+// toInt2 renders a key component: numbers as integers, names as they are.
+func toInt2(v any) any {
+	if f, ok := v.(float64); ok {
+		return int(f)
+	}
+
+	return v
+}
+
+// Finish runs at the end of a path of a specification with a ledger: the server is closed, then two
+// virtual hours pass.  Everything must have been released exactly once, created and deleted events
+// must pair up, and no lifecycle event may arrive late (a timer that outlived its allocation).
+func (w *World) Finish(wait func()) []Mismatch {
+	if w.Meta.Extra["ledger"] != "yes" {
+		return nil
+	}
+	var ms []Mismatch
+	if !w.down {
+		_ = w.Srv.Close()
+		w.down = true
+	}
+	wait()
+	w.evMu.Lock()
+	n0 := len(w.Events)
+	bal := map[string]int{}
+	for _, ev := range w.Events {
+		k := evKey(ev.Kind, ev.Key)
+		base := strings.Replace(strings.Replace(k, "+ ", " ", 1), "- ", " ", 1)
+		if strings.Contains(k, "+ ") {
+			bal[base]++
+		} else {
+			bal[base]--
+		}
+	}
+	w.evMu.Unlock()
+	for k, v := range bal {
+		if v != 0 {
+			ms = append(ms, Mismatch{"events", fmt.Sprintf("after Server.Close: created - deleted = %d for %q", v, k)})
+		}
+	}
+	if n := w.Srv.AllocationCount(); n != 0 {
+		ms = append(ms, Mismatch{"resources", fmt.Sprintf("after Server.Close AllocationCount() = %d", n)})
+	}
+	w.gen.mu.Lock()
+	for k, c := range w.gen.Conns {
+		select {
+		case <-c.closed:
+		default:
+			ms = append(ms, Mismatch{"resources", "after Server.Close the relay socket " + k + " is still open"})
+		}
+	}
+	w.gen.mu.Unlock()
+	time.Sleep(2 * time.Hour)
+	wait()
+	w.evMu.Lock()
+	late := append([]Event{}, w.Events[n0:]...)
+	w.evMu.Unlock()
+	for _, ev := range late {
+		ms = append(ms, Mismatch{"events.late", fmt.Sprintf("%s %s arrived %v after the server was closed: a timer outlived its allocation", ev.Kind, ev.Key, ev.At)})
+	}
+
+	return ms
 }
 
 const realm = "verif.example"
@@ -105,6 +256,8 @@ type World struct {
 	nonce            string
 	staleNonce       string
 	noRetry          bool
+	down             bool
+	evSeen           int
 	step             int
 	gen              *memGen
 
@@ -638,8 +791,10 @@ func (w *World) Do(a map[string]any, wait func()) ([]Obs, error) {
 	w.step++
 	time.Sleep(time.Microsecond) // strictly after anything due at the same model instant
 	wait()
-	if err := w.ensureNonce(wait); err != nil {
-		return nil, err
+	if !w.down {
+		if err := w.ensureNonce(wait); err != nil {
+			return nil, err
+		}
 	}
 	obs, retry, err := w.do1(a, wait)
 	if err != nil {
@@ -718,6 +873,15 @@ func (w *World) do1(a map[string]any, wait func()) (obs []Obs, retry bool, err e
 		cd := proto.ChannelData{Number: proto.ChannelNumber(toInt(a["n"])), Data: pay} //nolint:gosec
 		cd.Encode()
 		w.sendFromClient(c, cd.Raw)
+	case "RelayError":
+		if ra := w.relayOf[c]; ra != nil {
+			if conn := w.gen.Conns[key(ra)]; conn != nil {
+				close(conn.ReadErr) // the relay socket's next read fails
+			}
+		}
+	case "ServerClose":
+		_ = w.Srv.Close()
+		w.down = true
 	case "BadCred":
 		raw, err := w.badCred(c, a["m"].(string), a["k"].(string))
 		if err != nil {
